@@ -216,7 +216,7 @@ func runCase(c Case) (fails []fail, obs string) {
 		add("impl-panics", "reference: "+r.Class+"; implementation panicked: "+tg.FirstLine(o.ErrText))
 		return fails, obs + "|panic"
 	}
-	if c.Family == "limits" && o.Class == "compile-error" && strings.Contains(o.ErrText, "too many") && c.Op != "free-refs" {
+	if c.Family == "limits" && o.Class == "compile-error" && strings.Contains(o.ErrText, "too many") && c.Op != "free-refs" && !(c.Op == "globals" && c.Budget <= tengo.GlobalsSize-1) {
 		// P: a program beyond a static limit is either rejected at compile time or behaves correctly
 		return nil, obs + "|rejected-by-limit"
 	}
